@@ -132,6 +132,12 @@ type World struct {
 	// RootDPFail makes that many leading CRL distribution points of the root fail (alternately with a download
 	// error and with a body that is not a CRL); as long as a later one works the Root CA CRL is obtainable.
 	RootDPFail int
+	// CRLIssuerUTF8: the CRLs spell their issuer's name with UTF8String attribute values (as Intel's do) while the
+	// certificates made by the standard library use PrintableString: the same name in other bytes.
+	CRLIssuerUTF8 bool
+	// CRLNoNumber: bit 0 = the PCK CRL, bit 1 = the CRL served by the first root distribution point carries no
+	// cRLNumber extension (any further distribution point serves a numbered one).
+	CRLNoNumber int
 
 	// Outputs of Build
 	Raw  []byte
@@ -327,13 +333,26 @@ func (w *World) BuildCollateral() {
 	}
 	w.Resp[TcbInfoURL(w.FmspcHex())] = w.TcbInfoResponse()
 	w.Resp[QeIdentityURL] = w.QeIDResponse()
+	mk := func(c *Cert, cs CRLSpec, noNumber bool) []byte {
+		if !w.CRLIssuerUTF8 && !noNumber {
+			return MakeCRL(c, c.Key, cs)
+		}
+		var raw []byte
+		if w.CRLIssuerUTF8 {
+			raw = RawNameUTF8(c.X.Subject)
+		}
+		return MakeCRLByHand(c, c.Key, cs, raw, !noNumber)
+	}
 	w.Resp[PckCrlURL(w.IssuerCA())] = Response{
 		Header: map[string][]string{HdrPckCrl: {IssuerChainHeader(w.PKI.Int, w.PKI.Root)}},
-		Body:   MakeCRL(w.PKI.Int, w.PKI.Int.Key, pckCrl),
+		Body:   mk(w.PKI.Int, pckCrl, w.CRLNoNumber&1 != 0),
 	}
-	root := MakeCRL(w.PKI.Root, w.PKI.Root.Key, rootCrl)
+	root := mk(w.PKI.Root, rootCrl, false)
+	rootNoNumber := mk(w.PKI.Root, rootCrl, true)
 	for i, u := range w.PKI.Root.X.CRLDistributionPoints {
 		switch {
+		case w.CRLNoNumber&2 != 0 && i == w.RootDPFail && i < len(w.PKI.Root.X.CRLDistributionPoints):
+			w.Resp[u] = Response{Body: rootNoNumber}
 		case i < w.RootDPFail && i < len(w.PKI.Root.X.CRLDistributionPoints)-1 && i%2 == 0:
 			w.Resp[u] = Response{Err: errors.New("scripted: distribution point unreachable")}
 		case i < w.RootDPFail && i < len(w.PKI.Root.X.CRLDistributionPoints)-1:
@@ -349,6 +368,40 @@ func (w *World) Build() *World {
 	w.SignQuote()
 	w.BuildCollateral()
 	return w
+}
+
+// CollateralTwin returns a world with the SAME quote, PKI and times whose collateral is rebuilt with fault f applied
+// (f must be a fault of the collateral / revocation data only). It models what the PCS serves at a later moment.
+func (w *World) CollateralTwin(f Fault) *World {
+	t := *w
+	t.TcbInfo.Levels = append([]PlatformLevel{}, w.TcbInfo.Levels...)
+	t.TcbInfo.Identities = nil
+	for _, id := range w.TcbInfo.Identities {
+		id.Levels = append([]ModuleLevel{}, id.Levels...)
+		t.TcbInfo.Identities = append(t.TcbInfo.Identities, id)
+	}
+	t.TcbInfo.Mrsigner, t.TcbInfo.Attributes, t.TcbInfo.Mask = append([]byte{}, w.TcbInfo.Mrsigner...), append([]byte{}, w.TcbInfo.Attributes...), append([]byte{}, w.TcbInfo.Mask...)
+	t.QeID.Levels = append([]QeLevel{}, w.QeID.Levels...)
+	t.QeID.Mrsigner = append([]byte{}, w.QeID.Mrsigner...)
+	t.PckCrl.Revoked = append([][]byte{}, w.PckCrl.Revoked...)
+	t.RootCrl.Revoked = append([][]byte{}, w.RootCrl.Revoked...)
+	f.ApplyPre(&t)
+	t.BuildCollateral()
+	f.ApplyPost(&t)
+	return &t
+}
+
+// CollateralOnlyFaults are the catalogue faults that live in the collateral / revocation data alone.
+func CollateralOnlyFaults() []Fault {
+	var out []Fault
+	for _, f := range Faults {
+		switch f.Name {
+		case "tcbinfo-expired", "qeid-expired", "tcb-level-out-of-date", "qe-level-revoked", "qeid-wrong-mrsigner", "tcbinfo-wrong-fmspc", "tcbinfo-endpoint-down", "tcbinfo-signature-corrupt",
+			"leaf-revoked", "intermediate-revoked", "tcb-signer-revoked", "pck-crl-endpoint-down", "root-crl-endpoint-down", "pck-crl-expired", "root-crl-expired":
+			out = append(out, f)
+		}
+	}
+	return out
 }
 
 // NewGetter returns a fresh recording getter over the world's responses.
